@@ -177,6 +177,18 @@ class Image:
                 return page * PAGE + idx
         return -1
 
+    def any_written(self, addr: int, n: int) -> bool:
+        """Is any offset of [addr, addr + n) written?  (exact)"""
+        pos = 0
+        while pos < n:
+            page, off = divmod(addr + pos, PAGE)
+            take = min(n - pos, PAGE - off)
+            pg = self.pages.get(page)
+            if pg is not None and pg[1].find(b"\x01", off, off + take) >= 0:
+                return True
+            pos += take
+        return False
+
     def get(self, addr: int) -> int | None:
         page, off = divmod(addr, PAGE)
         pg = self.pages.get(page)
